@@ -73,6 +73,10 @@ func (p *Prog) resolveRenames() {
 	if len(base) == 0 {
 		return
 	}
+	p.baselineKnown = map[string]bool{}
+	for name := range base {
+		p.baselineKnown[name] = true
+	}
 	missingBySig := map[string][]string{}
 	for name, sig := range base {
 		if p.Funcs[name] == nil {
